@@ -221,7 +221,8 @@ type Scenario struct {
 	AnnualTemp   float64
 	PotMin       int
 	PrecipCorr   bool
-	AlwaysPreco  bool // write the monthly precipitation-correction table even if the correction is off (a batch line may switch it on)
+	AliasCrops   map[string]string // crop code of the built-in table without a shipped parameter file -> shipped crop whose parameter file the project supplies under that name
+	AlwaysPreco  bool              // write the monthly precipitation-correction table even if the correction is off (a batch line may switch it on)
 	PrecoFactors [12]float64
 	// WeatherFault (C04): the weather input does not cover the whole simulation ("", ends_early, gap, missing_year, starts_late)
 	WeatherFault string
@@ -701,6 +702,19 @@ func genWithProfile(prop string, seed uint64, idx int, r *Rng, p Profile) *Scena
 		}
 	}
 	tightenCenturySplit(sc, NewRng(mix(mix(seed, uint64(idx)), 1900)))
+	if prop == "C02" || prop == "C07" || prop == "C06" {
+		// built-in crop codes whose growth parameters are not shipped (field bean, spring barley, oat 'H', pea, maize 'M'): the
+		// project supplies the parameter file itself (a copy of a related shipped crop); 6 % of the cases grow one as first crop
+		if r5 := NewRng(mix(mix(seed, uint64(idx)), 77)); r5.Bool(0.06) && len(sc.Rotation) > 1 && !sc.AutoSow && !sc.AutoHarvest && !sc.AutoFert && !sc.AutoIrr {
+			alias := map[string][]string{"SOY": {"AB", "ERB"}, "LUP": {"ERB", "AB"}, "SW": {"SG"}, "OA": {"H"}, "SM": {"M"}, "CCM": {"M"}}
+			e := &sc.Rotation[1]
+			if as, ok := alias[e.Crop]; ok {
+				a := as[r5.Intn(len(as))]
+				sc.AliasCrops = map[string]string{a: e.Crop}
+				e.Crop, e.Variety = a, ""
+			}
+		}
+	}
 	if prop == "C05" {
 		// calendar edges as annual output date: end of February, 1 March, the turn of the year, ends of 30-day months
 		if r2 := NewRng(mix(mix(seed, uint64(idx)), 2802)); r2.Bool(0.2) {
